@@ -504,6 +504,9 @@ def run_impl_all(exe, pw, cases, max_crashes=25):
         text = "cfg %d\n" % pw + "\n".join(cases[pos:]) + "\n"
         lines, rc, err = vcheck.run_impl(exe, [], text)
         got = lines[1:] if lines else []
+        if len(got) >= len(cases) - pos and rc != 0:
+            # every case answered but the process did not exit cleanly (LeakSanitizer report at exit)
+            crashes.append((-1, rc, err[-2500:]))
         for i, l in enumerate(got):
             if pos + i < len(cases):
                 out[pos + i] = l
@@ -625,8 +628,11 @@ def judge(ctx, exe, label, pw, cases, stats, tag="gen", verbose=False):
     cases = [c[0] if isinstance(c, tuple) else c for c in cases]
     impl, crashes = run_impl_all(exe, pw, cases)
     model = run_model_all(pw, cases)
-    stats["crashes"] += len(crashes)
+    stats["crashes"] += len([c for c in crashes if c[0] >= 0])
     crash_at = {c[0]: c for c in crashes}
+    if -1 in crash_at:
+        ctx.pending.append({"kind": "harness", "correspondence": "the driver answered every case but exited with status %s" % crash_at[-1][1],
+                            "build": label, "stderr": crash_at[-1][2]})
     nbad = 0
     for i, (case, regen) in enumerate(zip(cases, regens)):
         il = impl[i]
@@ -644,7 +650,7 @@ def judge(ctx, exe, label, pw, cases, stats, tag="gen", verbose=False):
             if nbad <= 3:
                 def still_crash(c2, exe=exe, pw=pw):
                     o, cr = run_impl_all(exe, pw, [c2])
-                    return bool(cr)
+                    return any(c[0] >= 0 for c in cr)
                 small = shrink(case, regen, still_crash, budget=30)
                 ctx.violation("the product aborts under the sanitizers (%s) [%s build]: %s" % (m.group(1) if m else kind, label, small[:200]),
                               {"kind": "oracle", "case": small, "original_case": case, "build": label, "pw": pw, "signature": sig,
